@@ -613,7 +613,7 @@ func r163(c *fw.Ctx) {
 			case *ast.AssignStmt:
 				for i, l := range x.Lhs {
 					if st, ok := unparen(l).(*ast.StarExpr); ok && i < len(x.Rhs) && strings.HasSuffix(exprString(x.Rhs[i]), ".current.codeBlockCtx") {
-						if id, ok := st.X.(*ast.Ident); ok && id.Name == "old" {
+						if isParamIdent(info, fd, st.X) {
 							savesOld = true
 						}
 					}
@@ -668,7 +668,7 @@ func r163(c *fw.Ctx) {
 					if strings.HasSuffix(ls, ".current.codeBlockCtx") && i < len(x.Rhs) {
 						restorePos = x.Pos()
 						if st, ok := unparen(x.Rhs[i]).(*ast.StarExpr); ok {
-							if id, ok := st.X.(*ast.Ident); ok && id.Name == "old" {
+							if isParamIdent(info, fd, st.X) {
 								restoreWhole = true
 							}
 						}
@@ -835,13 +835,13 @@ func r163(c *fw.Ctx) {
 		// and the embedded block context goes through start/endBlockStmt with &old.codeBlockCtx
 		sb, eb := false, false
 		inspectFunc(sfd, func(n ast.Node) bool {
-			if call, ok := n.(*ast.CallExpr); ok && isFunc(callee(info, call), fw.Mod, "CodeBuilder.startBlockStmt") && strings.Contains(exprString(call.Args[len(call.Args)-1]), "old.codeBlockCtx") {
+			if call, ok := n.(*ast.CallExpr); ok && isFunc(callee(info, call), fw.Mod, "CodeBuilder.startBlockStmt") && fieldOfParam(info, sfd, call.Args[len(call.Args)-1], "codeBlockCtx") {
 				sb = true
 			}
 			return true
 		})
 		inspectFunc(efd, func(n ast.Node) bool {
-			if call, ok := n.(*ast.CallExpr); ok && isFunc(callee(info, call), fw.Mod, "CodeBuilder.endBlockStmt") && strings.Contains(exprString(call.Args[0]), "old.codeBlockCtx") {
+			if call, ok := n.(*ast.CallExpr); ok && isFunc(callee(info, call), fw.Mod, "CodeBuilder.endBlockStmt") && fieldOfParam(info, efd, call.Args[0], "codeBlockCtx") {
 				eb = true
 			}
 			return true
@@ -855,7 +855,7 @@ func r163(c *fw.Ctx) {
 		okS, okE := false, false
 		inspectFunc(vs, func(n ast.Node) bool {
 			if as, ok := n.(*ast.AssignStmt); ok && len(as.Lhs) == 1 {
-				if st, ok := unparen(as.Lhs[0]).(*ast.StarExpr); ok && exprString(st.X) == "old" {
+				if st, ok := unparen(as.Lhs[0]).(*ast.StarExpr); ok && isParamIdent(info, vs, st.X) {
 					if lit := asLit(as.Rhs[0]); lit != nil {
 						f := structFields(info, lit)
 						okS = strings.HasSuffix(exprString(f["codeBlock"]), ".current.codeBlock") && strings.HasSuffix(exprString(f["scope"]), ".current.scope")
@@ -866,8 +866,8 @@ func r163(c *fw.Ctx) {
 		})
 		inspectFunc(ve, func(n ast.Node) bool {
 			if as, ok := n.(*ast.AssignStmt); ok && len(as.Lhs) == 2 && len(as.Rhs) == 2 {
-				okE = strings.HasSuffix(exprString(as.Lhs[0]), ".current.codeBlock") && exprString(as.Rhs[0]) == "old.codeBlock" &&
-					strings.HasSuffix(exprString(as.Lhs[1]), ".current.scope") && exprString(as.Rhs[1]) == "old.scope"
+				okE = strings.HasSuffix(exprString(as.Lhs[0]), ".current.codeBlock") && fieldOfParam(info, ve, as.Rhs[0], "codeBlock") &&
+					strings.HasSuffix(exprString(as.Lhs[1]), ".current.scope") && fieldOfParam(info, ve, as.Rhs[1], "scope")
 			}
 			return true
 		})
@@ -1050,4 +1050,34 @@ func r164(c *fw.Ctx) {
 		c.Check(eq(got, want), rule, "Stack."+name+"/length-change", store.Pos(), "new length %s, documented %s (L = old length)", show(got), show(want))
 	}
 	c.Floor(rule, "stack primitives", n, 5)
+}
+
+// isParamIdent: e is an identifier that refers to a parameter of fd (whatever it is called).
+func isParamIdent(info *types.Info, fd *ast.FuncDecl, e ast.Expr) bool {
+	id, ok := unparen(e).(*ast.Ident)
+	if !ok {
+		return false
+	}
+	o := info.Uses[id]
+	if o == nil {
+		return false
+	}
+	for _, f := range fd.Type.Params.List {
+		for _, nm := range f.Names {
+			if info.Defs[nm] == o {
+				return true
+			}
+		}
+	}
+	return false
+}
+
+// fieldOfParam: e is `P.field` or `&P.field` for a parameter P of fd.
+func fieldOfParam(info *types.Info, fd *ast.FuncDecl, e ast.Expr, field string) bool {
+	e = unparen(e)
+	if u, ok := e.(*ast.UnaryExpr); ok && u.Op == token.AND {
+		e = unparen(u.X)
+	}
+	se, ok := e.(*ast.SelectorExpr)
+	return ok && se.Sel.Name == field && isParamIdent(info, fd, se.X)
 }
